@@ -236,6 +236,7 @@ async fn episode(p: &EpParams, mt: bool) -> EpReport {
             rep.viol("C07", "C07:Q-term:blocking-pull-over-limit", format!("{} blocking Pull(s) still pending 5 min + 1 s after they were issued", pending_pulls));
         }
         // Follow-up probes per touched resource.
+        let probe_publish_expected_ok;
         let probes: Vec<(&'static str, tokio::task::JoinHandle<()>)> = {
             let mut v = Vec::new();
             let cx = Cx::new(&w, 900);
@@ -254,6 +255,7 @@ async fn episode(p: &EpParams, mt: bool) -> EpReport {
                     let _ = cx.publish(&t2, &[Msg::tagged("probe")]).await;
                 }
             })));
+            probe_publish_expected_ok = !with_delete_topic;
             for s in subs.iter() {
                 let cx = cx.clone();
                 let s = s.clone();
@@ -274,6 +276,16 @@ async fn episode(p: &EpParams, mt: bool) -> EpReport {
         }
         for (_, h) in &probes {
             h.abort();
+        }
+        // a live topic keeps accepting publishes after the burst (a subscription that died while
+        // it was being attached must not poison its topic)
+        if probe_publish_expected_ok && pending.is_empty() {
+            let hist = w.history();
+            if let Some(o) = hist.ops.values().find(|o| matches!(&o.op, Op::Publish { tags, .. } if tags == &vec!["probe".to_string()])) {
+                if let Some((_, _, Out::Status(c, m))) = &o.ret {
+                    rep.viol("C07", format!("C07:probe-publish-status:code={}", c), format!("after the burst a Publish to the live topic answers {}: {}", c, m));
+                }
+            }
         }
         // Control message on a healthy stream must have been processed.
         if let Some(h) = &stream {
